@@ -5,7 +5,8 @@
    model, it proves nothing), binary64 rounding is outside every theorem. *)
 From Coq Require Import Reals.
 From Coquelicot Require Import Coquelicot.
-From MV Require Import Model.CoreNum Model.CoreModel Model.CoreSpec Proofs.CoreProofs.
+From MV Require Import Lib.Rigid Gen.GenCore Model.CorePinned Model.CoreNum Model.CoreModel Model.CoreSpec Model.CoreFrame
+  Proofs.CoreProofs Proofs.CoreIntegrals Proofs.CoreFrameProofs.
 Open Scope R_scope.
 
 (* Dipole: for every moment and every observer off the dipole, dipole_Hfield is the point-dipole
@@ -28,3 +29,45 @@ Print Assumptions C01_sphere_outside_is_dipole.
 
 Example C01_sphere_outside_nonvacuous : Rabs 1 / 2 < Rnorm (1, 0, 0) /\ (1, 0, 0) <> (0, 0, 0).
 Proof. exact sphere_outside_nonvacuous. Qed.
+
+(* Circle, observer on the axis (d <> 0): the mask logic of BHJM_circle selects the on-axis branch
+   and every component of its value is the Biot-Savart loop integral over phi in [0, 2 pi] *)
+Theorem C01_circle_on_axis_is_biot_savart : forall (cur d z : R) (i : nat), d <> 0 ->
+  exists h, circle_H NumR (0, 0, z) d cur = Some h /\
+    is_RInt (bs_circle_integrand cur (Rabs (d / 2)) (0, 0, z) i) 0 (2 * PI) (comp i h).
+Proof. exact circle_on_axis_spec. Qed.
+Print Assumptions C01_circle_on_axis_is_biot_savart.
+
+(* Polyline segment, PARTIAL.  Proved in full: (1) for p1 <> p2 and an observer off the supporting
+   line, every component of the Biot-Savart integral over the segment exists and equals the closed
+   form  I/(4 pi) ((p2-p1) x (o-p1))_i (F 1 - F 0),  F s = 2(2As+B)/((4AC-B^2) sqrt(As^2+Bs+C)),
+   A = |p2-p1|^2, B = -2 (o-p1).(p2-p1), C = |o-p1|^2;  (2) the three sign cases of
+   current_polyline_Hfield (mask2 / mask3 / mask4, as a function of the foot parameter t and the
+   distance d > 0 from the line, both in units of the segment length) always yield
+   deltaSin = (1+t)/sqrt((1+t)^2+d^2) - t/sqrt(t^2+d^2), i.e. the case split never picks a wrong sign.
+   NOT proved: the algebraic identification of the model's intermediate vector norms
+   (polyline_H_br NumR: norm_41 = |t|, norm_42 = |1+t|, norm_o4 = d, ...) with (t, d) and of
+   F 1 - F 0 with deltaSin/(d^2 |p2-p1|^3); it is checked numerically by the search only. *)
+Theorem C01_polyline_segment_is_biot_savart_partial :
+  (forall (cur : R) (o p1 p2 : RV3) (i : nat),
+     p1 <> p2 -> 0 < Rdot (segX o p1 p2) (segX o p1 p2) ->
+     is_RInt (bs_segment_integrand cur o p1 p2 i) 0 1
+       (cur / (4 * PI) * comp i (segX o p1 p2) *
+        (FF (segA o p1 p2) (segB o p1 p2) (segC o p1 p2) 1 - FF (segA o p1 p2) (segB o p1 p2) (segC o p1 p2) 0)))
+  /\ (forall t d : R, 0 < d ->
+     deltaSin_code t d = (1 + t) / sqrt ((1 + t) * (1 + t) + d * d) - t / sqrt (t * t + d * d)).
+Proof. exact (conj segment_biot_savart_closed deltaSin_code_spec). Qed.
+Print Assumptions C01_polyline_segment_is_biot_savart_partial.
+
+(* getBH_level1: in every rigid-motion algebra, the field returned at the global image
+   (R ol + p) of a local point ol is the rotated local field R F(ol) *)
+Theorem C01_level1_frame : forall (O : RigidOps) (L : RigidLaws O) (F : V -> V) (p : V) (r : G) (ol : V),
+  level1_row F p r (to_global p r ol) = act r (F ol).
+Proof. exact (@level1_frame). Qed.
+Print Assumptions C01_level1_frame.
+
+(* The tie, inside Coq: the implementation functions modelled by CoreModel.v / CoreFrame.v have, on
+   this run, exactly the source text (AST fingerprint, regenerated from /repo into Gen/GenCore.v)
+   against which the model was written *)
+Example C01_model_pinned_to_source : core_fingerprints = pinned_fingerprints.
+Proof. vm_compute. reflexivity. Qed.
